@@ -67,7 +67,7 @@ func TestVerifC22Conc(t *testing.T) {
 
 	shared := codec.New()
 	adapter := adapterpkg.New()
-	perG := r.N(12000, 150000)
+	perG := r.N(20000, 200000)
 
 	var wg sync.WaitGroup
 	for gi := 0; gi < G; gi++ {
